@@ -184,7 +184,12 @@ def run(tier, seed, pid="C13"):
                           gstar=[gst[0][0], gst[1][1], gst[2][2], gst[1][2], gst[0][2], gst[0][1]]))
     s = rng.uniform(0.002, 0.02)
     recs = recs + small
-    res = common.pmap(worker, [(x, s if x["B0"][0][0] < 1000000 else s / 2000000.0) for x in recs])
+    # ... and cells of protein size (edges of hundreds of Angstrom, volume far above 1e6 A^3: det B'B = 1/V^2 is below 1e-12) and tiny ones
+    extreme = [dict(x) for x in recs[:: max(1, len(recs) // (20 if tier == "quick" else 400))] if x["B0"][0][0] < 1000000]
+    work = [(x, s if x["B0"][0][0] < 1000000 else s / 2000000.0) for x in recs]
+    work += [(x, s * 0.01) for x in extreme[::2]] + [(x, s * 300.0) for x in extreme[1::2]]
+    recs = recs + extreme[::2] + extreme[1::2]
+    res = common.pmap(worker, work)
     ncalls = 0
     for x, (n, out, known) in zip(recs, res):
         ncalls += n
